@@ -233,11 +233,14 @@ pub fn generate(seed: u64, idx: u64, thorough: bool) -> History {
                 let k = rng.usize(4);
                 ops.push(BOp::Funcs((0..k).map(|_| (fn_name(&mut rng), next())).collect()));
             }
-            8 | 9 => ops.push(BOp::Symbol(rng.pick(&SYM_NAMES).to_string(), next())),
+            8 | 9 => {
+                let v = if rng.chance(1, 4) { -1 - rng.below(7) as i64 } else { next() };
+                ops.push(BOp::Symbol(rng.pick(&SYM_NAMES).to_string(), v))
+            }
             _ => {
                 let k = rng.usize(4);
                 let via = rng.below(3) as u8;
-                ops.push(BOp::Symbols(via, (0..k).map(|_| (rng.pick(&SYM_NAMES).to_string(), next())).collect()));
+                ops.push(BOp::Symbols(via, (0..k).map(|_| (rng.pick(&SYM_NAMES).to_string(), if rng.chance(1, 5) { -1 - rng.below(7) as i64 } else { next() })).collect()));
             }
         }
     }
@@ -274,6 +277,22 @@ pub fn candidates(h: &History) -> Vec<History> {
         out.push(n);
     }
     out
+}
+
+/// The value registered for symbol id `v`: the id itself, except for a few ids that stand for
+/// values which are `==` to each other but differently represented (the most recently registered
+/// *representation* is what the symbol must resolve to).
+pub fn sym_value(v: i64) -> Value {
+    match v {
+        -1 => Value::Float(0.0),
+        -2 => Value::Float(-0.0),
+        -3 => Value::Decimal(rust_decimal::Decimal::new(10, 1)),
+        -4 => Value::Decimal(rust_decimal::Decimal::new(100, 2)),
+        -5 => Value::None,
+        -6 => Value::Vec(vec![Value::Float(-0.0)]),
+        -7 => Value::Vec(vec![Value::Float(0.0)]),
+        other => Value::Int(other as i128),
+    }
 }
 
 // ------------------------------------------------------------- model + run
@@ -315,9 +334,9 @@ fn apply(b: Builder, op: &BOp, live: &mut Live) -> Result<Builder, reval::Error>
                 v.iter().map(|(n, i)| Box::new(live.probe(n, *i)) as Box<dyn UserFunction + Send + Sync>).collect();
             b.with_functions(boxed)
         }
-        BOp::Symbol(n, v) => Ok(b.with_symbol(n.clone(), Value::Int(*v as i128))),
+        BOp::Symbol(n, v) => Ok(b.with_symbol(n.clone(), sym_value(*v))),
         BOp::Symbols(via, v) => {
-            let items: Vec<(String, Value)> = v.iter().map(|(n, x)| (n.clone(), Value::Int(*x as i128))).collect();
+            let items: Vec<(String, Value)> = v.iter().map(|(n, x)| (n.clone(), sym_value(*x))).collect();
             let syms = match via {
                 0 => {
                     let mut s = Symbols::default();
@@ -664,10 +683,10 @@ pub fn check(h: &History, c: &mut Counters) -> Verdict {
         let got = &outcomes[nrules + fn_names.len() + i].value;
         match model.symbols.get(n) {
             Some(v) => {
-                if *got != Res::Ok(format!("i{v}")) {
+                if *got != Res::Ok(crate::xv::canon(&sym_value(*v))) {
                     return Verdict::violation(
                         "symbol-not-most-recent",
-                        format!("symbol {n:?} | most recently registered value i{v}; the built ruleset resolves it to {got:?}"),
+                        format!("symbol {n:?} | most recently registered value {}; the built ruleset resolves it to {got:?}", crate::xv::canon(&sym_value(*v))),
                     );
                 }
                 c.bump("hit.symbol_resolved");
